@@ -43,7 +43,7 @@ def scan_trusted(text):
     return sorted(set(found))
 
 
-def generate(unit, repo=REPO):
+def generate(unit, repo=REPO, canary=False):
     tpl_path = os.path.join(VERIF, 'contracts', 'units', unit + '.rs.tpl')
     with open(tpl_path) as f:
         tpl = f.read()
@@ -53,9 +53,9 @@ def generate(unit, repo=REPO):
             return g.read()
     for _ in range(3):
         tpl = re.sub(r'^[ \t]*//@@ include (.*)$', inc, tpl, flags=re.M)
-    text, ex = extract.expand_template(tpl, repo, unit)
+    text, ex = extract.expand_template(tpl, repo, unit, canary=canary)
     os.makedirs(GEN, exist_ok=True)
-    path = os.path.join(GEN, unit + '.rs')
+    path = os.path.join(GEN, unit + ('__canary' if canary else '') + '.rs')
     with open(path, 'w') as f:
         f.write(text)
     return path, text, ex
@@ -179,3 +179,42 @@ def run(unit, tier='quick', use_cache=True, repo=REPO, rlimit=None, extra_args=(
         with open(cpath, 'w') as f:
             json.dump(res, f)
     return res
+
+
+def run_canaries(unit, tier='quick', repo=REPO):
+    """Vacuity guard: with `assert(false)` spliced at the top of every function under contract and
+    of every annotated loop body, each of them must FAIL.  A canary that verifies means that the
+    preconditions / invariants are contradictory, i.e. the real proof would be vacuous."""
+    t0 = time.time()
+    try:
+        path, text, ex = generate(unit, repo, canary=True)
+    except extract.LostAnchor as e:
+        return {'status': 'lost_anchor', 'detail': str(e)}
+    sha = hashlib.sha256(text.encode()).hexdigest()
+    cpath = os.path.join(CACHE, '%s-canary-%s.json' % (unit, sha[:24]))
+    if tier == 'quick' and os.path.exists(cpath):
+        with open(cpath) as f:
+            r = json.load(f)
+        r['cached'] = True
+        return r
+    p = subprocess.run(['verus', path, '--output-json', '--multiple-errors', '50'],
+                       capture_output=True, text=True, cwd=GEN)
+    lines = text.split('\n')
+    want = {}
+    for i, l in enumerate(lines):
+        for m in re.finditer(r'/\*CANARY (.*?)\*/', l):
+            want[i + 1] = m.group(1)
+    failed_lines = set()
+    for m in re.finditer(r'error: assertion failed\n\s*--> [^\n:]+:(\d+):', p.stderr):
+        failed_lines.add(int(m.group(1)))
+    alive = [name for ln, name in want.items() if ln not in failed_lines]
+    r = {'status': 'ok' if not alive and want else 'vacuous', 'canaries': len(want),
+         'canaries_failed_as_required': len(want) - len(alive), 'vacuous': alive,
+         'wall_s': time.time() - t0}
+    if r['status'] == 'ok':
+        os.makedirs(CACHE, exist_ok=True)
+        with open(cpath, 'w') as f:
+            json.dump(r, f)
+    else:
+        r['stderr_tail'] = p.stderr[-3000:]
+    return r
